@@ -25,7 +25,7 @@ ASSUMPTIONS = ["the expansion is the one shown on website/docs/task-types/run-ex
                "ill-typed chain_experiments is not generated (documented Boolean, implemented by truthiness)"]
 ESSENTIAL = ["chained>=3", "shared_deps", "dup_instance_names", "instance_equals_group_name", "experiments_absent",
              "generator_experiments", "ill_typed_field", "both_accepted", "both_rejected", "instance_clashes_other_task",
-             "failure_in_chain", "non_instance_element"]
+             "failure_in_chain", "non_instance_element", "same_group_in_two_packages"]
 TECHNIQUE = "differential / translation validation: sugar vs. documented expansion, Hypothesis-generated definitions, identical virtual-kernel schedules"
 LEVEL_TEXT = ("Each generated group definition is a 'program'; its documented expansion is the reference translation. Loaded graphs and "
               "complete execution traces of both are compared. Random search over definitions, not exhaustive.")
@@ -77,7 +77,9 @@ def _case(draw, tier):
     return {"pkg": pkg, "gname": gname, "insts": insts, "deps": deps, "chain": chain, "exp_form": exp_form,
             "consumer": consumer, "target": target, "jobs": draw(st.sampled_from([None, 1, 2, 3])),
             "outcomes": outcomes, "tape": tape, "again": draw(st.sampled_from([False, False, True])),
-            "second_run": draw(st.sampled_from([False, False, True]))}
+            "second_run": draw(st.sampled_from([False, False, True])),
+            # the same group (same instance names) defined once more in a sibling package, both loaded by one invocation
+            "twin": draw(st.sampled_from([False, False, False, True]))}
 
 
 def strategy(tier):
@@ -163,6 +165,8 @@ def other_src(case):
 def target_id(case):
     pkg = case["pkg"]
     t = case["target"]
+    if case.get("twin"):
+        return "//q:both"
     if t == "consumer":
         name = "use_group" if case["consumer"] in ("group", "both") else "use_inst" if case["insts"] else case["gname"]
     elif t == "instance" and case["insts"]:
@@ -184,6 +188,11 @@ def write(root, case, body):
     if case["pkg"]:
         with open(os.path.join(root, "COND"), "w") as f:
             f.write("")
+    if case.get("twin"):
+        os.makedirs(os.path.join(root, "q"), exist_ok=True)
+        with open(os.path.join(root, "q", "COND"), "w") as f:
+            f.write(head + body + "run_command(name='both', run='./u.sh', deps=[':%s', '//%s:%s'])\n" % (
+                case["gname"], case["pkg"], case["gname"]))
 
 
 def describe(root, tid):
@@ -241,6 +250,8 @@ def run_case(case):
     rb = projgen.new_scratch("c19e")
     try:
         labels = set()
+        if case.get("twin"):
+            labels.add("same_group_in_two_packages")
         v = []
         n = len(case["insts"])
         names = [i["name"] for i in case["insts"]]
